@@ -274,7 +274,13 @@ def gen_exhaustive(tier, seed):
 
 def suites(tier, seed):
     tail = (amqp.heartbeat() + amqp.connection_close(320, "bye")).hex()
+    import machgen as mg
+    from props import c03, c05
     return [
+        Suite("bursts-in-the-loop", "machine", lambda: mg.burst_cases(Rng(seed + 36)), monitor=c03.monitor, nontrivial=lambda c, il: True, canon=mg.canon_nondet, shrink=False,
+              rule="the read path of the real I/O loop (Inner::read_from_stream over FrameBuffer): hundreds of frames readable in one wake-up are all handed on in that wake-up"),
+        Suite("frames-then-fault-in-the-loop", "machine", lambda: mg.frames_then_fault_cases(Rng(seed + 37)), monitor=lambda c, il, sl: None, nontrivial=lambda c, il: True, canon=mg.canon_nondet, shrink=False,
+              rule="complete frames (a server Connection.Close, deliveries, a server Channel.Close, a reply) followed in the same wake-up by EOF / an I/O error / an unparsable frame: the frames ahead of the fault are acted on before the fault is reported (exact diff against the Lean Conn model; the oracle for what 'acted on' means is C05 / C08)"),
         Suite("bytes-behind-open-ok-e2e", "hbe2e", lambda: [Case("t%d" % k, ["run 0 0 silent 900 tail=%s,%d" % (tail, k)], {"keep_prefix": 0}) for k in ([0, 1, 3, 7] if tier == "quick" else [0, 1, 2, 3, 4, 5, 6, 7])],
               monitor=lambda c, il, sl: None if any(l.startswith("close err ServerClosedConnection 320") for l in il) else (
                   "the server sent a heartbeat and Connection.Close(320) right behind OpenOk, the first %s bytes in the same write as OpenOk: the client must end with ServerClosedConnection 320, got %s" % (c.ops[0].split(",")[-1], [l for l in il if l.startswith(("open", "close", "death"))]), "c06-handshake-boundary"),
